@@ -119,6 +119,9 @@ class Check:
     def coq_make(self, targets, timeout=1500):
         sh(["sh", os.path.join(COQ, "mkproject.sh")])
         rc, out = sh(["make", "-C", COQ, "-j%d" % NCPU] + list(targets), timeout=timeout)
+        if rc == 124:      # time limit hit (machine under load): not a verdict on any proof; continue the build with a 3x limit
+            rc, out2 = sh(["make", "-C", COQ, "-j%d" % NCPU] + list(targets), timeout=3 * timeout)
+            out = out + out2
         return rc == 0, out
 
     def coq_props(self, props_file=None, timeout=900):
@@ -134,6 +137,8 @@ class Check:
                 self.obligations.append((rel + ":" + t, False))
             return False, failing, out
         rc, out = sh(["coqc", "-Q", COQ, "QG", "-w", "-deprecated-hint-without-locality,-notation-overridden,-ambiguous-paths", src], timeout=timeout, cwd=COQ)
+        if rc == 124:
+            rc, out = sh(["coqc", "-Q", COQ, "QG", "-w", "-deprecated-hint-without-locality,-notation-overridden,-ambiguous-paths", src], timeout=3 * timeout, cwd=COQ)
         if rc != 0:
             failing = self._locate_failure(out, src)
             for t in thms:
@@ -243,6 +248,12 @@ class Check:
             name, p = running.pop(0)
             out = p.communicate()[0]
             res.append((name, p.returncode, out))
+        # a shard killed by its time limit (machine under load) says nothing about the code: evaluate it again, alone, with a 4x limit
+        for i, (name, rc, out) in enumerate(res):
+            if rc in (124, 137, -9) and not (out or "").strip():
+                f = os.path.join(d, name + ".v")
+                rc2, out2 = sh(["coqc", "-Q", COQ, "QG", "-Q", d, "Corr", f], timeout=4 * timeout, cwd=d)
+                res[i] = (name, rc2, out2)
         return res
 
     # ---------------------------------------------------------------- bookkeeping
